@@ -349,5 +349,12 @@ def r8_fresh_waker(ctx):
     fresh_waker_rule(ctx, "C19.R8", {"shuttle_tokio_impl_inner"}, 1)
 
 
-RULES = [("C19.R8", r8_fresh_waker), ("C19.R7", r7_notify), ("C19.R1", r1_receive_paths), ("C19.R2", r2_send_path), ("C19.R3", r3_fairness), ("C19.R4", r4_guards),
+def r9_no_guard_across_choice_point(ctx):
+    """The tokio replacements keep part of their bookkeeping (Notify's waiter list, watch's value, the timeout table) under real std locks;
+    a choice point while such a guard is held lets another task block the single OS thread on the same lock."""
+    from engine import borrows
+    borrows.rule_no_guard_across_choice_point(ctx, "C19.R9", {"shuttle_tokio_impl_inner"}, {}, 10)
+
+
+RULES = [("C19.R9", r9_no_guard_across_choice_point), ("C19.R8", r8_fresh_waker), ("C19.R7", r7_notify), ("C19.R1", r1_receive_paths), ("C19.R2", r2_send_path), ("C19.R3", r3_fairness), ("C19.R4", r4_guards),
          ("C19.R5", r5_close), ("C19.R6", r6_delegation)]
